@@ -171,6 +171,10 @@ def laws_case(draw):
         x = present[draw(st.integers(0, len(present) - 1))]
         y = x if draw(st.booleans()) else present[draw(st.integers(0, len(present) - 1))]
         la, lb = draw(leaf_for(x)), draw(leaf_for(y))
+        if draw(st.integers(0, 2)) == 0:
+            # both tags twice, with the same text, as siblings at the top level (two ways to satisfy LA && LB)
+            for extra in (x, y, x, y):
+                t.insert(draw(st.integers(0, len(t))), dict(extra))
     return {"tree": t, "A": a, "B": b, "C": c3, "LA": la, "LB": lb, "perm_seed": draw(st.integers(0, 10 ** 6))}
 
 
@@ -268,7 +272,17 @@ def oracle_laws(case):
             out.bad("leaf-and-needs-two-distinct-tags", f"{LA!r} && {LB!r}: got {got} expected {exp} "
                                                         f"(matches {ma} / {mb}); {ctxs}")
         out.classes += ("leaf-and:" + ("same-tag-only" if ma and mb and not exp else "other"),)
-        # three conjuncts need three distinct tags
+        # the same four conjuncts grouped in three ways (&& is associative)
+        try:
+            four = [run(f"({LA} && {LB}) && ({LA} && {LB})", hs), run(f"{LA} && ({LB} && ({LA} && {LB}))", hs),
+                    run(f"(({LA} && {LB}) && {LA}) && {LB}", hs)]
+        except Exception as exc:  # noqa
+            return out.bad("search-raises:four-conjuncts", f"{exc!r}: {LA!r} {LB!r}; {ctxs}")
+        if len(set(four)) != 1:
+            out.bad("and-not-associative:four-leaf-conjuncts", f"{LA!r} && {LB!r} twice, grouped (ab)(ab) / a(b(ab)) / "
+                                                               f"((ab)a)b: {four}; {ctxs}")
+        if four[0]:
+            out.classes += ("four-conjuncts:matched",)
         exp3 = any(len({i, j, k}) == 3 for i in ma for j in mb for k in ma)
         got3 = run(f"{LA} && {LB} && {LA}", hs)
         # only the 'only if' direction is stated (matches only via distinct tags): the engine additionally wants the
